@@ -10,6 +10,7 @@ pub mod c09;
 pub mod c10;
 pub mod c11;
 pub mod c12;
+pub mod c13;
 pub mod c14;
 pub mod conc;
 pub mod crash;
@@ -30,6 +31,7 @@ pub fn dispatch(a: &Args) -> i32 {
         "C10" => c10::run(a),
         "C11" => c11::run(a),
         "C12" => c12::run(a),
+        "C13" => c13::run(a),
         "C14" => c14::run(a),
         "scenarios" => {
             // debug: run every directed scenario and print the outcome
@@ -72,6 +74,13 @@ fn replay(a: &Args, path: &str) -> i32 {
                     0
                 }
             }
+        }
+        Some("c13") => {
+            let code = c13::replay(&j);
+            if code == 1 {
+                println!("VIOLATION property={} replay={}", a.prop, path);
+            }
+            code
         }
         Some("c12") => {
             let code = c12::replay(&j);
